@@ -258,6 +258,7 @@ def bind_roles(fn, roles, where=""):
         ("assign", pattern[, idx])   target of an assignment / with-as / walrus whose value matches (idx: tuple element)
         ("for", pattern[, idx])      target of a for loop whose iterable matches
         ("recv", attr, argpattern)   receiver of a call  <recv>.<attr>(<arg0 matching>, ...)
+        ("subscript", key)           the name X of a store  X[<key>] = ...
         ("return", None, idx)        idx-th element of the (single) tuple shape the function returns
     pattern: str compared with norm(value) after substituting {role} by the names bound so far; a str starting with
     "~" is a regular expression (fullmatch, after substitution, other text NOT escaped); or a callable(norm, node).
@@ -281,8 +282,8 @@ def bind_roles(fn, roles, where=""):
 
     for role, spec in roles.items():
         kind = spec[0]
-        m = matcher(spec[1]) if kind not in ("recv", "return") else None
-        idx = spec[2] if len(spec) > 2 and kind != "recv" else None
+        m = matcher(spec[1]) if kind not in ("recv", "return", "subscript", "recv_arg") else None
+        idx = spec[2] if len(spec) > 2 and kind not in ("recv", "recv_arg") else None
         if kind == "assign":
             cands = bound_names(fn, m, nested=True)
         elif kind == "for":
@@ -292,6 +293,12 @@ def bind_roles(fn, roles, where=""):
                 cands = list(dict.fromkeys(r.value.id for r in walk_own(fn) if isinstance(r, ast.Return) and isinstance(r.value, ast.Name)))
             else:
                 cands = list(dict.fromkeys(tuple(norm(e) for e in r.value.elts) for r in walk_own(fn) if isinstance(r, ast.Return) and isinstance(r.value, ast.Tuple)))
+        elif kind == "recv_arg":
+            # the plain name passed as the idx-th positional argument of a call to <...>.<attr>(...)
+            cands = list(dict.fromkeys(c.args[spec[2]].id for c in ast.walk(fn) if isinstance(c, ast.Call) and (call_attr(c) == spec[1] or norm(c.func) == spec[1]) and len(c.args) > spec[2] and isinstance(c.args[spec[2]], ast.Name)))
+            idx = None
+        elif kind == "subscript":
+            cands = list(dict.fromkeys(norm(n.value) for n in ast.walk(fn) if isinstance(n, ast.Subscript) and isinstance(n.ctx, ast.Store) and isinstance(n.slice, ast.Constant) and n.slice.value == spec[1] and isinstance(n.value, ast.Name)))
         elif kind == "recv":
             am = matcher(spec[2])
             cands = []
